@@ -237,17 +237,21 @@ TIMES0 = [[99, 12, 31, 21], [0, 2, 28, 18], [4, 2, 29, 0], [20, 6, 15, 12],
 @st.composite
 def file_case(draw):
     nt = draw(st.sampled_from([1, 2, 3]))
-    nlev = draw(st.sampled_from([2, 3, 4]))        # incl. surface
-    nsfc = draw(st.integers(1, 3))
-    nupp = draw(st.integers(1, 3))
-    sfc = list(draw(st.permutations(SFC)))[:nsfc]
-    upp = list(draw(st.permutations(UPP)))[:nupp]
-    levels = draw(st.sampled_from(LEVELSETS))[:nlev]
     # upper levels may carry fewer variables (as GDAS/NAM files do): number
     # of trailing upper keys dropped per upper level, none on the first
     ragged = draw(st.sampled_from([False, False, True]))
-    drop = [0] + [min(nupp - 1, draw(st.sampled_from([0, 1, 2])))
-                  if ragged else 0 for k in range(nlev - 2)]
+    nlev = draw(st.sampled_from([3, 4] if ragged else [2, 3, 4]))
+    nsfc = draw(st.sampled_from([1, 2, 3]))
+    nupp = draw(st.sampled_from([2, 3] if ragged else [1, 2, 3]))
+    sfc = list(draw(st.permutations(SFC)))[:nsfc]
+    upp = list(draw(st.permutations(UPP)))[:nupp]
+    levels = draw(st.sampled_from(LEVELSETS))[:nlev]
+    drop = [0] * (nlev - 1)
+    if ragged:
+        j = draw(st.sampled_from(list(range(1, nlev - 1))))
+        for k in range(1, nlev - 1):
+            drop[k] = draw(st.sampled_from([1, nupp - 1])) if k == j else \
+                draw(st.sampled_from([0, 1]))
     lenh = 108 + 8 + 8 * nsfc + sum(8 + 8 * (nupp - d) for d in drop)
     nx = draw(st.integers(17, 24))
     ny = draw(st.integers(17, 24))
